@@ -3,7 +3,8 @@
 //!
 //! T2 case syntax (text is a comma separated list of hexadecimal code points,
 //! `-` for the empty text; octets are lowercase hex, `-` for empty):
-//!   enc64|enc32|enc16 <octets>          => Ok <text>
+//!   enc64|enc32|enc16 <octets>          => Ok <text>     (encode_string)
+//!   encd64|encd32|encd16 <octets>       => Ok <text>     (encode_display through fmt)
 //!   dec64|dec32|dec16 <text>            => Ok <octets> | Err <Kind>
 //!   push64|push32|push16 <text>         => <trace> <final>
 //!        every char is pushed through `Decoder::push`, errors are ignored,
@@ -610,6 +611,17 @@ fn t2_enc(out: &mut Out, c: Codec, b: &[u8], record: bool) {
             chk(out, s == want, &format!("{}_encode_rfc4648", p), &case, &format!("got {} want {}", s, want));
             let d = imp_encode_display(c, b);
             chk(out, d.as_deref() == Ok(s.as_str()), &format!("{}_display_differs", p), &case, &format!("{:?}", d));
+            if record {
+                // the encode_display / display(fmt::Write) route is a T2 case of its own
+                let dcase = format!("encd{} {}", c.tag(), hex(b));
+                let obs = match &d { Ok(t) => format!("Ok {}", cps(&t.chars().collect::<Vec<_>>())), Err(_) => "Panic".into() };
+                out.case(&dcase, &obs, !b.is_empty(), &format!("encd{}", c.tag()));
+            }
+            if c == B16 {
+                let t = s.clone();
+                let v = catch(move || base16::decode_vec(&t));
+                chk(out, matches!(&v, Ok(Ok(x)) if x.as_slice() == b), "b16_decode_vec_differs", &case, &format!("{:?}", v));
+            }
             let chars: Vec<char> = s.chars().collect();
             match imp_decode(c, &chars) {
                 Err(e) => chk(out, false, &format!("{}_decode_panics", p), &case, &e),
@@ -928,6 +940,40 @@ fn main() {
             let mut s2 = vec![ch]; s2.extend(base.iter());
             if want!() { t2_push(&mut out, c, &s2); }
             if cp % 3 == 0 { if want!() { t2_conv(&mut out, c, &[base.clone(), vec![ch]]); } }
+        }
+    }
+    // ---- every value of the last data character (non-canonical trailing bits), every tail length
+    for c in codecs {
+        let al = alphabet(c);
+        let lens: &[usize] = match c { B64 => &[1, 2, 4, 5], B32 => &[1, 2, 3, 4, 6, 7, 9], B16 => &[1, 2] };
+        for n in lens {
+            let b = r.bytes(*n);
+            let t: Vec<char> = ref_encode(c, &b).chars().collect();
+            let last = t.iter().rposition(|x| *x != '=').unwrap();
+            for ch in &al {
+                let mut u = t.clone(); u[last] = *ch;
+                if want!() { t2_dec(&mut out, c, &u); }
+                if want!() { t2_conv(&mut out, c, &[u[..last].to_vec(), u[last..].to_vec()]); }
+            }
+        }
+    }
+    // ---- one character of a valid text replaced / removed / doubled, at every position
+    for c in codecs {
+        for n in 0..=11usize {
+            let b = r.bytes(n);
+            let t: Vec<char> = ref_encode(c, &b).chars().collect();
+            for pos in 0..t.len() {
+                for bad in ['=', '!', ' ', '\u{e9}', '-', 'g', 'W', '/'] {
+                    let mut u = t.clone(); u[pos] = bad;
+                    if want!() { t2_dec(&mut out, c, &u); }
+                    if pos % 3 == 0 { if want!() { t2_push(&mut out, c, &u); } }
+                }
+                let mut u = t.clone(); u.remove(pos);
+                if want!() { t2_dec(&mut out, c, &u); }
+                let mut u = t.clone(); u.insert(pos, t[pos]);
+                if want!() { t2_dec(&mut out, c, &u); }
+                if want!() { t2_scan(&mut out, c, &[u[..pos].to_vec(), u[pos..].to_vec()], true); }
+            }
         }
     }
     // ---- bounded builders: capacities around the decoded length, all group remainders
